@@ -289,11 +289,15 @@ func run(e *core.Env) {
 
 	reorder := tp.Chance(1, 2) && len(e0r) >= 12
 	if reorder {
-		// displacement <= 8
-		for i := range stream {
-			j := i + tp.Intn(9)
-			if j < len(stream) && j != i && tp.Chance(1, 3) {
-				stream[i], stream[j] = stream[j], stream[i]
+		// displacement <= 8: swaps stay inside blocks of nine (swapping along the whole
+		// stream can carry one frame further than the receive window reaches, and a frame
+		// more than 64 behind the newest is refused by design)
+		for b := 0; b < len(stream); b += 9 {
+			n := min(9, len(stream)-b)
+			for k := 0; k < n; k++ {
+				if j := tp.Intn(n); j != k && tp.Chance(1, 3) {
+					stream[b+k], stream[b+j] = stream[b+j], stream[b+k]
+				}
 			}
 		}
 		e.Fault("reorder")
